@@ -247,7 +247,7 @@ var kC14Block = register(&Kind[c14Block]{
 	Prop: "C14", Name: "blockfilter",
 	Gen: func(t *rapid.T) c14Block {
 		b := c14Block{Nonce: rapid.Uint32().Draw(t, "nonce")}
-		scripts := []HexBytes{{}, {0x51}, {0x76, 0xa9, 0x14}, genBytes(t, "s1", 1, 30), genBytes(t, "s2", 1, 30)}
+		scripts := []HexBytes{{}, {0x51}, {0x76, 0xa9, 0x14}, {0x6a, 0x02, 0xab, 0xcd}, {0x6a}, genBytes(t, "s1", 1, 30), genBytes(t, "s2", 1, 30)}
 		ntx := rapid.IntRange(1, 30).Draw(t, "ntx")
 		for i := 0; i < ntx; i++ {
 			var tx c14Tx
